@@ -256,7 +256,12 @@ enum DOp {
     /// set_nested(path, scalar): path index into DPATHS
     Nested(usize, i64),
     Remove(usize),
+    /// set(FLAT[i], scalar): a top-level key whose NAME contains dots and extends another key ("k2.f" next to the
+    /// object k2) - an independent key as far as the store is concerned
+    SetFlat(usize, i64),
+    RemoveFlat(usize),
 }
+const FLAT: [&str; 3] = ["k2.f", "k2.g.h", "k1.x"];
 const DKEYS: [&str; 2] = ["k1", "k2"];
 const DPATHS: [&str; 8] = ["k2.f", "k2.g.h", "k2.g", "k2", "k1.f", "k1.g.h", "k2.g.h.x", "k2.n.h"];
 
@@ -303,18 +308,21 @@ fn gen_dops(s: &mut Src, exh: u32) -> Vec<DOp> {
     (0..n)
         .map(|_| {
             if exh > 0 {
-                // 3 frame ops + set k2 scalar + set k2 object + remove k2 + 5 nested paths = 11 letters
-                match s.below(11) {
+                // 3 frame ops + set k2 scalar + set k2 object + remove k2 + 5 nested paths + set of the flat key "k2.f" = 12 letters
+                match s.below(12) {
                     0 => DOp::Begin,
                     1 => DOp::Commit,
                     2 => DOp::Rollback,
                     3 => DOp::Set(1, 1),
                     4 => DOp::SetObj(1),
                     5 => DOp::Remove(1),
+                    11 => DOp::SetFlat(0, 1),
                     x => DOp::Nested(x - 6, 1),
                 }
             } else {
-                match s.weighted(&[6, 2, 5, 2, 2, 8, 2]) {
+                match s.weighted(&[6, 2, 5, 2, 2, 8, 2, 3, 1]) {
+                    7 => DOp::SetFlat(s.below(3), 1 + s.below(2) as i64),
+                    8 => DOp::RemoveFlat(s.below(3)),
                     0 => DOp::Begin,
                     1 => DOp::Commit,
                     2 => DOp::Rollback,
@@ -346,6 +354,8 @@ pub fn run_b_deep(s: &mut Src, ctx: &mut Ctx) -> Verdict {
                     DOp::Set(k, v) => format!("set({}, {})", DKEYS[*k], v),
                     DOp::SetObj(k) => format!("set({}, {{f: 0, g: {{h: 0}}}})", DKEYS[*k]),
                     DOp::Remove(k) => format!("remove({})", DKEYS[*k]),
+                    DOp::SetFlat(k, v) => format!("set(flat key \"{}\", {})", FLAT[*k], v),
+                    DOp::RemoveFlat(k) => format!("remove(flat key \"{}\")", FLAT[*k]),
                     x => format!("{:?}", x).to_lowercase(),
                 })
                 .collect::<Vec<_>>()
@@ -413,6 +423,17 @@ pub fn run_b_deep(s: &mut Src, ctx: &mut Ctx) -> Verdict {
                 facts.remove(DKEYS[*k]);
                 model.remove(DKEYS[*k]);
             }
+            DOp::SetFlat(k, v) => {
+                facts.set(FLAT[*k], Value::Integer(*v));
+                model.insert(FLAT[*k].to_string(), V::Int(*v));
+                if !stack.is_empty() {
+                    ctx.label("flat-dotted-key-written-inside-a-frame");
+                }
+            }
+            DOp::RemoveFlat(k) => {
+                facts.remove(FLAT[*k]);
+                model.remove(FLAT[*k]);
+            }
         }
         let got = snap_of(&facts);
         if got != model {
@@ -444,7 +465,7 @@ pub fn property() -> Property {
     Property {
         id: "C10",
         level: "exploration",
-        rule: "part queries: the C09 generator restricted to non-monotone Horn KBs (wrong-value conclusions, side assignments, dead ends, cycles) x stores x goals x {DFS,BFS,Iterative} x max_depth 0..6 x max_solutions {1,3}; oracle: whenever the query is reported not provable, get_all_facts() after equals before (deep equality); leaked undo frames are reported as labels. Non-trivial: the query was not provable, some rule's condition was true on the initial facts (so the attempt executed something) and the KB has a wrong-value rule / dead end / And of two derivable sub-goals. Part frames: sequences over {begin, commit, rollback, set(k,v), set_nested(k.f,v), remove(k)} on 3 keys x 2 values starting from k1 scalar, k2 object, k3 absent: random of length 1..10 and exhaustive enumeration of all sequences of length 5 (quick) / 6 (thorough) over a 15-letter alphabet; oracle: stack of full deep snapshots (begin pushes, rollback pops and restores, commit pops and discards; both are no-ops on an empty stack), compared with get_all_facts() and snapshot() after every operation, plus the open-frame count (hook). Non-trivial: >= 2 nested frames with a write and a commit/rollback; distinct by operation sequence. Part frames-deep: the same oracle over set_nested paths of one, two and three segments (k2.g.h) on roots that are objects nested two levels deep, scalars or absent, with writes that replace a sub-object by a scalar (a later deeper write must fail and change nothing) and that re-create the object: random of length 1..10 and exhaustive over an 11-letter alphabet to length 5 / 6; non-trivial: a three-segment write inside a frame that is rolled back, or a failed set_nested inside a frame followed by a rollback.",
+        rule: "part queries: the C09 generator restricted to non-monotone Horn KBs (wrong-value conclusions, side assignments, dead ends, cycles) x stores x goals x {DFS,BFS,Iterative} x max_depth 0..6 x max_solutions {1,3}; oracle: whenever the query is reported not provable, get_all_facts() after equals before (deep equality); leaked undo frames are reported as labels. Non-trivial: the query was not provable, some rule's condition was true on the initial facts (so the attempt executed something) and the KB has a wrong-value rule / dead end / And of two derivable sub-goals. Part frames: sequences over {begin, commit, rollback, set(k,v), set_nested(k.f,v), remove(k)} on 3 keys x 2 values starting from k1 scalar, k2 object, k3 absent: random of length 1..10 and exhaustive enumeration of all sequences of length 5 (quick) / 6 (thorough) over a 15-letter alphabet; oracle: stack of full deep snapshots (begin pushes, rollback pops and restores, commit pops and discards; both are no-ops on an empty stack), compared with get_all_facts() and snapshot() after every operation, plus the open-frame count (hook). Non-trivial: >= 2 nested frames with a write and a commit/rollback; distinct by operation sequence. Part frames-deep: the same oracle over set_nested paths of one, two and three segments (k2.g.h) on roots that are objects nested two levels deep, scalars or absent, with writes that replace a sub-object by a scalar (a later deeper write must fail and change nothing) and that re-create the object, plus set/remove of FLAT top-level keys whose names extend another key (\"k2.f\" next to the object k2): random of length 2..10 and exhaustive over a 12-letter alphabet to length 5 / 6; non-trivial: a three-segment write inside a frame that is rolled back, or a failed set_nested inside a frame followed by a rollback.",
         assumptions: vec!["engine panics/errors during a query are counted, not judged".into()],
         parts: vec![
             Part { name: "queries", run: run_a, quick: Budget::Random { cases: 300_000, bytes: 300 }, thorough: Budget::Random { cases: 10_000_000, bytes: 300 }, min_nontrivial_pct: 15 },
